@@ -44,7 +44,7 @@ func TestVerifConsts(t *testing.T) {
 	}
 	var xs []string
 	for _, n := range verifTracerNames {
-		xs = append(xs, fmt.Sprintf("(%s, %d%%Z)", verifCoqBytes(n), verifTracerAlg(n)))
+		xs = append(xs, fmt.Sprintf("(%s, (%d)%%Z)", verifCoqBytes(n), verifTracerAlg(n)))
 	}
 	body := "(* internal/tracer GetDecompressor(name): algorithm decoded, 0 = none *)\n" +
 		"Definition c20_tracer : list (list N * Z) := [" + strings.Join(xs, "; ") + "].\n"
